@@ -377,6 +377,10 @@ theorem C06_reclaim_roundtrip (db : Db) (fs : Fs) (order : List Bytes) (clock cl
     · intro e he
       exact hall e ((AL.mem_iff_get?_of_noDup db.map k e hn).1 ((hmem (k, e)).1 he))
 
+/-- the live data of a loaded map: key ↦ (value, version), removed keys left out -/
+def liveView (m : KV) (k : Bytes) : Option (Bytes × Int) :=
+  (AL.get? m k).bind fun e => if e.state = .deleted then none else some (e.value, e.version)
+
 /-! ## Non-vacuity: a database with a new key, a tombstone and a non-ASCII key at the in-conflict version meets every hypothesis -/
 
 def c06Db : Db := { Db.new b!"t" 1 .none with
